@@ -48,7 +48,13 @@ META = {
                   'configured_scaled_described (a scaled limit set by the configuration on the grid: the integer the report states denotes exactly that limit, whichever side of the whole number the float '
                   'quotient limit/scale lands on, and client = node on every payload), described_datainfo_equiv_derived + model_change_probe_ok_derived (node level, no oracle assumption), '
                   'derived_datainfo_equiv_statement (every well-formed tree, no condition) stays a statement: missing are GridStable for the carrier and finiteness of the limits\' grid values.  '
-                  'Tied to secnode.py / params.py / modulebase.py / properties.py / dispatcher.py / datatypes.py by correspondence runs (model report = real report, the module property lists DERIVED from '
+                  'create_modules_registers (Node/CreateModules models get_module_instance / add_module / get_module with the recursive resolution of Attached properties / the loop of create_modules with Pinatas: '
+                  'for EVERY configuration - any declaration order, attachments, scans - the list the report is made from is exactly the created module objects with export=True, in their order of creation; a module created before its own turn is registered like any other), '
+                  'create_modules_creates (no error counted => every configured module exists afterwards), create_modules_once, allRegistered_of_registeredOK (what the monitor on the implementation demands follows), describe_follows_registration / report_lists_created_exported (the modules of the report = the created objects with the flag set), '
+                  'retype_reported / retype_dispatched / retype_other_stable / retype_other_module / retype_same_modules (Node/Retype: module code gives a LIVE parameter a new datatype - the entry of that parameter states the new datainfo, the dispatcher validates with it, every other entry, the module list and the module properties are unchanged), '
+                  'stableExceptB_sound, live_scaled_described (configured_scaled_described for a limit set at run time by datatype.set_properties).  '
+                  'Tied to secnode.py / params.py / modulebase.py / properties.py / dispatcher.py / datatypes.py by correspondence runs (create_modules: configuration order + attached names + Pinata scans -> SecNode.modules / SecNode.export DERIVED by the model; '
+                  'later phases of a node whose modules changed datatypes of live parameters: the node DERIVED from the previous phase by setDt, the live datatype DERIVED from class + configuration + run-time limits; model report = real report, the module property lists DERIVED from '
                   'class + configuration; model step = real step for every request of the sweep; datatype stream: instance datatype DERIVED from class datatype + configured limits, described datainfo DERIVED from the '
                   'instance datatype, verdicts of node datatype and rebuilt client datatype on the boundary catalogue DERIVED by the model) and report-vs-behaviour monitors on generated nodes and on the shipped configurations '
                   '(boundary catalogue of every described datainfo sent as change requests and judged against the client datatype rebuilt from the report).',
@@ -67,6 +73,9 @@ META = {
         'shipped configurations: driver calls are not observed there (only replies and subscriptions); they are probed only after the generated nodes showed no violation',
     ],
     'modelled_not_verified': [
+        'create_modules: errors (unknown attached name, cyclic dependency) are only counted by the model, the correspondence is run on nodes frappy builds without errors; '
+        'io modules auto-created by HasIO (add_module inside a constructor) are not modelled - on the shipped configurations only the registration monitor runs',
+        'live datatype changes: only set_properties(min / max / unit) on numeric top-level datatypes is generated; replacing the datatype object of a live parameter is not',
         'configuration keys of a datatype other than min / max (unit, fmtstr, resolutions, lengths): generated and judged by the monitors, but they reach the model through the tree read from the real object',
         'datatype stream: LimitsType / StatusType / TextType parameters are left out (not one of the ten kinds of the datatype model)',
         'the MRO itself (Python C3 linearisation) and the qualified class name are data from the real class',
@@ -250,14 +259,17 @@ def do_payloads(rng, kind, argspec):
     return out
 
 
-def sweep_steps(rng, node, nodespec, cats=None, nchange=0):
-    """requests at every described and undescribed name of the node"""
+def sweep_steps(rng, node, nodespec, cats=None, nchange=0, focus=None):
+    """requests at every described and undescribed name of the node (focus: only at these (module, attribute) pairs -
+    a later phase of a node whose modules changed the datatypes of these live parameters)"""
     from frappy.params import Parameter
     idx = {(m, a): (kind, spec) for m, a, kind, spec, _ in (c04.spec_index(nodespec) if nodespec else [])}
     steps = []
     acts = []
     for mname, modobj in node.secnode.modules.items():
         for attr, aobj in modobj.accessibles.items():
+            if focus is not None and (mname, attr) not in focus and getattr(aobj, 'constant', None) is None:
+                continue      # (constants are read in every phase: a described constant reads as exactly that constant)
             names = {attr, '_' + attr}
             if isinstance(aobj.export, str):
                 names.add(aobj.export)
@@ -284,6 +296,8 @@ def sweep_steps(rng, node, nodespec, cats=None, nchange=0):
     # the boundary catalogue of every described datainfo, sent as `change` requests (a parameter described read-only must
     # refuse them all; for a writable one the described datainfo predicts which are refused)
     for (mname, aname), (cdt, payloads) in (cats or {}).items():
+        if focus is not None and (mname, node.secnode.modules[mname].accessiblename2attr.get(aname)) not in focus:
+            continue
         pobj = node.secnode.modules[mname].parameters.get(node.secnode.modules[mname].accessiblename2attr.get(aname))
         for data in payloads[:nchange if pobj is not None and not pobj.readonly else 2]:
             steps.append({'kind': 'change', 'spec': '%s:%s' % (mname, aname), 'data': data,
@@ -294,6 +308,8 @@ def sweep_steps(rng, node, nodespec, cats=None, nchange=0):
         for mname, modobj in node.secnode.modules.items():
             for attr, pobj in modobj.parameters.items():
                 if not isinstance(pobj.export, str) or pobj.constant is not None:
+                    continue
+                if focus is not None and (mname, attr) not in focus:
                     continue
                 for raw in rng.sample(c04.BAD_RAW, 3):
                     steps.append({'kind': 'assign', 'spec': '%s:%s' % (mname, attr), 'data': raw, 'script': 'none', 'seed': 1})
@@ -369,14 +385,200 @@ def add_inits(node, rec, cfgs):
 def generated_cfgs(nodespec):
     """the module configurations c04.build_node makes from a node spec, as far as module properties are concerned"""
     cfgs = {}
+    topo = nodespec.get('topology') or {'pinata': {}, 'attached': {}}
     for ms in nodespec['modules']:
         mcfg = {'description': 'generated module ' + ms['name']}
-        if not ms['exported']:
+        if ms['name'] in topo['pinata']:
+            mcfg['export'] = bool(ms['exported'])      # (the class-level value of a Pinata is False)
+        elif not ms['exported']:
             mcfg['export'] = False
+        for i, target in enumerate(topo['attached'].get(ms['name'], [])):
+            mcfg['att%d' % (i + 1)] = target
         for attr, over in ms['cfg'].items():
             mcfg[attr] = dict(over)
         cfgs[ms['name']] = mcfg
     return cfgs
+
+
+# ----------------------------------------------------------------------------------------
+# node topology: Pinatas and attached modules in every declaration order
+# ----------------------------------------------------------------------------------------
+def gen_topology(rng, nodespec, big):
+    """a node whose modules depend on each other: modules attached to other modules (`Attached` properties, resolved when
+    the attaching module is initialised - which creates the attached module if it does not exist yet) and Pinatas
+    (initialised INSIDE the loop of create_modules, yielding further modules), declared in a random order: attached
+    modules in front of and behind the modules that need them, exported or not"""
+    mods = nodespec['modules']
+    while len(mods) < rng.choice([3, 3, 4, 5 if big else 4]):
+        mods.append(c04.gen_modspec(rng, 'm%d' % (len(mods) + 1), big))
+    names = [ms['name'] for ms in mods]
+    pinata = {}
+    scanned = []
+    for hub in rng.sample(names, rng.choice([0, 1, 1, 1, 2])):
+        if hub in scanned:
+            continue
+        pool = [n for n in names if n != hub and n not in pinata and n not in scanned]
+        mine = rng.sample(pool, min(len(pool) - 1, rng.choice([0, 1, 1, 2]))) if len(pool) > 1 else []
+        pinata[hub] = mine
+        scanned += mine
+    # attachments: acyclic by a random ranking; only modules of the configuration can be attached (a module a Pinata
+    # yields is unknown to the node until its turn)
+    rank = names[:]
+    rng.shuffle(rank)
+    if rng.random() < 0.7:       # mostly: the Pinatas are the ones that need other modules (a bus, a controller)
+        rank = [n for n in rank if n not in pinata] + [n for n in rank if n in pinata]
+    attached = {}
+    for i, name in enumerate(rank):
+        lower = [n for n in rank[:i] if n not in scanned]
+        if lower and rng.random() < (0.8 if name in pinata else 0.5):
+            attached[name] = rng.sample(lower, min(len(lower), rng.choice([1, 1, 2])))
+    order = [n for n in names if n not in scanned]
+    rng.shuffle(order)
+    for hub in pinata:
+        if rng.random() < 0.5:   # declared in front of (some of) the modules it needs
+            order.remove(hub)
+            order.insert(rng.choice([0, 0, 1]) if len(order) > 1 else 0, hub)
+    nodespec['topology'] = {'order': order, 'pinata': pinata, 'attached': attached}
+    return nodespec
+
+
+def build_node(nodespec):
+    """c04.build_node; for a node spec with a `topology`: the generated classes get `Attached` properties / become
+    Pinatas, the configuration is written in the order of the topology, scanned modules come out of scanModules"""
+    topo = nodespec.get('topology')
+    if not topo:
+        return c04.build_node(nodespec)
+    import frappy.modules as fm
+    from frappy.dynamic import Pinata
+    from frappy.modules import Attached
+    from vlib.node import Node
+    box = c04.Box()
+    classes, mcfgs = {}, {}
+    cfgs = generated_cfgs(nodespec)
+    for ms in nodespec['modules']:
+        c04._clscount[0] += 1
+        base = getattr(fm, ms['base'])
+        known = {}
+        mixins = tuple(c04.feature_class(f) for f in ms.get('features', []))
+        cls = None
+        pending = []
+        for i, layer in enumerate(ms['layers']):
+            cname = 'Gen%s%d' % (chr(ord('A') + i), c04._clscount[0])
+            if layer.get('mixin'):
+                c = c04.mk_layer_class(box, cname, (), layer, known)
+                pending.insert(0, c)
+            else:
+                c = c04.mk_layer_class(box, cname, tuple(pending) + ((mixins + (base,)) if cls is None else (cls,)), layer, known)
+                pending = []
+                cls = c
+            box.layerspec[c] = layer
+        name = ms['name']
+        att = topo['attached'].get(name, [])
+        if att or name in topo['pinata']:
+            body = {'__module__': 'verifgen', '__doc__': 'generated module with attached modules'}
+            for i in range(len(att)):
+                body['att%d' % (i + 1)] = Attached()
+            bases = (cls,)
+            if name in topo['pinata']:
+                bases = (cls, Pinata)
+
+                def scan(self, _names=tuple(topo['pinata'][name])):
+                    for n in _names:
+                        yield n, dict(mcfgs[n])
+                body['scanModules'] = scan
+            cls = type('GenT%d' % c04._clscount[0], bases, body)
+        classes[name] = cls
+        mcfgs[name] = dict(cfgs[name], cls=cls)
+    node = Node({n: mcfgs[n] for n in topo['order']}, omit_unchanged_within=0)
+    return node, box, classes
+
+
+def registry(node):
+    """the module objects of the node with their export flag, and the list the report is made from"""
+    return {'created': [[n, bool(m.export)] for n, m in node.secnode.modules.items()],
+            'export': [str(n) for n in node.secnode.export]}
+
+
+def create_case(node, nodespec):
+    """create_modules as data for the model: the configuration in its order and what the Pinatas yield (name, export
+    flag, Pinata?, the names of the attached modules in the order of the class's properties, the scanned names)"""
+    from frappy.modules import Attached
+    topo = nodespec.get('topology') or {'order': [ms['name'] for ms in nodespec['modules']], 'pinata': {}, 'attached': {}}
+    cfgs = generated_cfgs(nodespec)
+    rows = {}
+    for ms in nodespec['modules']:
+        name = ms['name']
+        modobj = node.secnode.modules.get(name)
+        att = []
+        if modobj is not None:
+            mycls, = type(modobj).__bases__
+            att = [cfgs[name][pn] for pn, po in mycls.propertyDict.items() if isinstance(po, Attached) and cfgs[name].get(pn)]
+        rows[name] = {'name': name, 'exported': bool(ms['exported']), 'pinata': name in topo['pinata'], 'attached': att,
+                      'scan': list(topo['pinata'].get(name, []))}
+    scanned = [n for names in topo['pinata'].values() for n in names]
+    return {'cfg': [rows[n] for n in topo['order']], 'pool': [rows[n] for n in scanned]}
+
+
+# ----------------------------------------------------------------------------------------
+# module code changes the datatype of a live parameter (limits / unit from the hardware, as frappy_mlz.entangle does)
+# ----------------------------------------------------------------------------------------
+def gen_retypes(rng, node):
+    """events 'the module sets datatype properties of one of its live parameters' (datatype.set_properties): new hard
+    limits around the current value (narrower / wider than before, scaled: on and off the grid), sometimes a unit"""
+    from frappy.datatypes import FloatRange, IntRange, ScaledInteger
+    cands = []
+    for mname, modobj in node.secnode.modules.items():
+        for attr, pobj in modobj.parameters.items():
+            if pobj.constant is None and type(pobj.datatype) in (FloatRange, IntRange, ScaledInteger) and \
+                    isinstance(pobj.value, (int, float)) and not isinstance(pobj.value, bool) and abs(pobj.value) < 1e15:
+                cands.append((mname, attr, pobj))
+    events = []
+    for mname, attr, pobj in rng.sample(cands, min(len(cands), rng.choice([1, 2, 2, 3]))):
+        dt, cur = pobj.datatype, pobj.value
+        lo, hi = dt.min, dt.max
+        if isinstance(dt, IntRange):
+            cur = int(cur)
+            nlo = rng.choice([cur, cur - 1, cur - 7, max(lo, -1 << 30) - 3, lo])
+            nhi = rng.choice([cur, cur + 1, cur + 9, min(hi, 1 << 30) + 3, hi])
+        elif isinstance(dt, ScaledInteger):
+            k = int(round(cur / dt.scale))
+            off = rng.choice([0, 0, 0, 0.4, -0.3])
+            nlo = (k - rng.choice([0, 1, 3, 17]) + off) * dt.scale
+            nhi = (k + rng.choice([0, 1, 3, 17, 450]) + abs(off)) * dt.scale
+            if nlo > cur:
+                nlo = k * dt.scale if k * dt.scale <= cur else (k - 1) * dt.scale
+        else:
+            span = rng.choice([0.0, 0.5, 2.5, 25.0, 1e3])
+            nlo = rng.choice([cur - span, cur - 0.1 * 3, lo if abs(lo) < 1e300 else cur - 40.0])
+            nhi = rng.choice([cur + span, cur + 0.7, hi if abs(hi) < 1e300 else cur + 40.0])
+        nlo, nhi = min(nlo, cur), max(nhi, cur)
+        which = rng.choice(['both', 'both', 'min', 'max'])
+        if which == 'min' and nlo <= hi:
+            props = {'min': nlo}
+        elif which == 'max' and nhi >= lo:
+            props = {'max': nhi}
+        else:
+            props = {'min': nlo, 'max': nhi}
+        if not isinstance(dt, IntRange) and rng.random() < 0.3:
+            props['unit'] = rng.choice(['deg', 'mbar', 'A'])
+        events.append({'m': mname, 'attr': attr, 'props': props})
+    return events
+
+
+def apply_retypes(node, events):
+    """-> the (module, attribute) pairs whose datatype object was changed"""
+    live = node.__dict__.setdefault('live_sets', {})
+    touched = []
+    for ev in events:
+        pobj = node.secnode.modules[ev['m']].parameters[ev['attr']]
+        try:
+            pobj.datatype.set_properties(**ev['props'])
+        except Exception:
+            # refused by the datatype (ProgrammingError); what was set before the refusal stays set
+            ev['refused'] = True
+        live.setdefault((ev['m'], ev['attr']), []).append(ev)
+        touched.append((ev['m'], ev['attr']))
+    return touched
 
 
 def param_catalogues(rng, node, desc, near_cap, far_cap):
@@ -421,6 +623,7 @@ def _dt_class(func):
 
 
 def datatype_cases(node, desc, cats, cfgs, generated):
+    live_sets = getattr(node, 'live_sets', {})
     """for every described parameter whose datatype is one of the ten SECoP kinds: the datatype of the class, the limits
     the configuration sets, the datatype object of the instance, the described datainfo and the boundary payloads with the
     verdicts of the node's own datatype and of the client datatype — for the model (Node/DescribeDT) to derive all of it"""
@@ -440,7 +643,10 @@ def datatype_cases(node, desc, cats, cfgs, generated):
         cls_p = mycls.accessibles.get(attr)
         acfg = (cfgs or {}).get(mname, {}).get(attr)
         cls = cfg = None
-        if generated and cls_p is not None and getattr(cls_p, 'datatype', None) is not None and \
+        # what module code set on the live datatype object at run time (one set_properties call per entry)
+        live = live_sets.get((mname, attr), [])
+        live_ok = all(set(ev['props']) <= {'min', 'max'} and not ev.get('refused') for ev in live)
+        if generated and live_ok and cls_p is not None and getattr(cls_p, 'datatype', None) is not None and \
                 (acfg is None or isinstance(acfg, dict)):
             dtkeys = [k for k in (acfg or {}) if k not in cls_p.propertyDict]
             if all(k in ('min', 'max') for k in dtkeys):
@@ -461,6 +667,7 @@ def datatype_cases(node, desc, cats, cfgs, generated):
                            'client': _dt_class(lambda: cdt.validate(cdt.import_value(value)))})
         described = json.loads(json.dumps(desc['modules'][mname]['accessibles'][aname]['datainfo']))
         out.append({'m': mname, 'a': aname, 'cls': cls, 'cfg': cfg or [], 'inst': inst,
+                    'live': [[[k, dtcodec.py_to_json(v)] for k, v in ev['props'].items()] for ev in live] if cls is not None else [],
                     'described': dtcodec.py_to_json(described), 'probes': probes})
     return out
 
@@ -579,7 +786,7 @@ def report_text(desc):
         return None
 
 
-def run_node(rng, node, box, nodespec, classes, cfgs=None, big=False):
+def run_node(rng, node, box, nodespec, classes, cfgs=None, big=False, focus=None):
     """-> dict for the driver, or {'errors': ...}"""
     desc1 = node.describe()
     strict = report_text(desc1)
@@ -587,7 +794,7 @@ def run_node(rng, node, box, nodespec, classes, cfgs=None, big=False):
     # boundary catalogues of the described datainfos: all of them for the datainfo checks (datatype against datatype),
     # the first ones of each also as change requests (described datainfo against what the node does)
     cats = param_catalogues(random.Random(rng.randrange(1 << 30)), node, desc1, 6, 4 if not big else 6)
-    steps, acts = sweep_steps(rng, node, nodespec, cats, 5)
+    steps, acts = sweep_steps(rng, node, nodespec, cats, 5, focus)
     rec = None
     if nodespec is not None:
         rec = run_steps_on(node, box, nodespec, classes, steps)
@@ -613,7 +820,7 @@ def run_node(rng, node, box, nodespec, classes, cfgs=None, big=False):
                 'impl': md.get('implementation')}
                for mname, md in desc1['modules'].items()]
     dtcases = datatype_cases(node, desc1, cats, generated_cfgs(nodespec) if nodespec is not None else None, nodespec is not None)
-    return {'rec': rec, 'generated': nodespec is not None, 'dtcases': dtcases, 'classes': classes, 'report1': rep1, 'report2': report_json(desc2), 'activates': activates,
+    return {'registry': registry(node), 'rec': rec, 'generated': nodespec is not None, 'dtcases': dtcases, 'classes': classes, 'report1': rep1, 'report2': report_json(desc2), 'activates': activates,
             'dichecks': dichecks, 'imports': imports, 'strict': strict}
 
 
@@ -719,16 +926,21 @@ def shipped_nodes(ctx):
 def to_requests(data):
     rec = data['rec']
     base = {'p': PID, 'node': rec['node'], 'oracle': rec['oracle']}
-    return [dict(base, k='describe', steps=[{'req': s['req'], 'drv': s['drv']} for s in rec['steps']] if data.get('generated') else []),
-            dict(base, k='judge', text=data['strict'], report1=data['report1'], report2=data['report2'], classes=data['classes'],
+    prev = data.get('prev')      # a later phase: the phase before, and the parameters whose datatype changed in between
+    return [dict(base, k='describe', steps=[{'req': s['req'], 'drv': s['drv']} for s in rec['steps']] if data.get('generated') else [],
+                 prev=prev['rec']['node'] if prev else None, touched=[list(t) for t in data.get('touched', [])]),
+            dict(base, k='judge', text=data['strict'], registry=data.get('registry'),
+                 report0=prev['report2'] if prev else None, touchedWire=[list(t) for t in data.get('touched_wire', [])], report1=data['report1'], report2=data['report2'], classes=data['classes'],
                  steps=[{'req': s['req'], 'obs': s['obs'], 'client': s.get('client')} for s in rec['steps']],
                  activates=[{'m': a['m'], 'a': a['a'], 'reply': a['reply'], 'subsChanged': a['subsChanged']}
                             for a in data['activates'] if not a['bare']],
                  dichecks=[{'m': d['m'], 'a': d['a'], 'client': d['client'], 'node': d['node']} for d in data['dichecks']],
                  imports=[{'m': d['m'], 'a': d['a'], 'ok': d['ok']} for d in data['imports']],
                  trees=[{'m': c['m'], 'a': c['a'], 'inst': c['inst']} for c in data.get('dtcases', [])]),
-            {'p': PID, 'k': 'datatypes', 'params': [{'cls': c['cls'], 'cfg': c['cfg'], 'inst': c['inst'], 'described': c['described'],
-                                                      'probes': [p['payload'] for p in c['probes']]} for c in data.get('dtcases', [])]}]
+            {'p': PID, 'k': 'datatypes', 'params': [{'cls': c['cls'], 'cfg': c['cfg'], 'live': c.get('live', []), 'inst': c['inst'],
+                                                      'described': c['described'],
+                                                      'probes': [p['payload'] for p in c['probes']]} for c in data.get('dtcases', [])]},
+            dict(data.get('create') or {'cfg': [], 'pool': []}, p=PID, k='create')]
 
 
 # module properties a configuration may give (modulebase.py: "only the properties predefined here are allowed to be set in
@@ -889,16 +1101,40 @@ def gen_datatype_cfg(rng, dt):
 def gen_case(seed, big):
     rng = random.Random(seed)
     nodespec = c04.gen_nodespec(rng, big)
+    trng = random.Random(seed + 11)
+    if trng.random() < 0.25:
+        # modules that depend on each other (attached modules, Pinatas) in every declaration order
+        gen_topology(trng, nodespec, big)
+    # rounds of 'module code changes the datatype of a live parameter' after the node is up, each followed by a describe
+    nodespec['live'] = trng.choice([0, 0, 0, 0, 1, 1, 2]) if not nodespec.get('topology') else 0
     return {'seed': seed, 'big': big, 'nodespec': gen_module_props(random.Random(seed + 7), nodespec)}
 
 
 def run_generated(case):
-    node, box, classes = c04.build_node(case['nodespec'])
-    if node.errors or set(node.secnode.modules) != {ms['name'] for ms in case['nodespec']['modules']}:
+    """-> the phases of one node: [data of the node as built] + [data after each round of live datatype changes]"""
+    nodespec = case['nodespec']
+    node, box, classes = build_node(nodespec)
+    if node.errors or set(node.secnode.modules) != {ms['name'] for ms in nodespec['modules']}:
         return None
-    data = run_node(random.Random(case['seed'] + 1), node, box, case['nodespec'], classes, big=bool(case.get('big')))
-    data['cfgstats'] = cfg_stats(case['nodespec'])
-    return data
+    data = run_node(random.Random(case['seed'] + 1), node, box, nodespec, classes, big=bool(case.get('big')))
+    data['cfgstats'] = cfg_stats(nodespec)
+    data['create'] = create_case(node, nodespec)
+    phases = [data]
+    lrng = random.Random(case['seed'] + 13)
+    for rnd in range(nodespec.get('live', 0)):
+        events = gen_retypes(lrng, node)
+        if not events:
+            break
+        touched = apply_retypes(node, events)
+        nxt = run_node(random.Random(case['seed'] + 17 + rnd), node, box, nodespec, classes, big=bool(case.get('big')),
+                       focus=set(touched))
+        nxt['prev'] = {'rec': {'node': phases[-1]['rec']['node']}, 'report2': phases[-1]['report2']}
+        nxt['touched'] = sorted(set(touched))
+        nxt['touched_wire'] = sorted({(m, node.secnode.modules[m].parameters[a].export) for m, a in touched
+                                      if isinstance(node.secnode.modules[m].parameters[a].export, str)})
+        nxt['events'] = events
+        phases.append(nxt)
+    return phases
 
 
 DT_PROP_KEYS = ('min', 'max', 'unit', 'absolute_resolution', 'maxchars', 'isUTF8', 'maxbytes', 'maxlen', 'minlen')
@@ -929,11 +1165,35 @@ def cfg_stats(nodespec):
     return out
 
 
-def evaluate(ctx, res, label, case, data, model, judge, dtmodel=None):
+def evaluate(ctx, res, label, case, data, model, judge, dtmodel=None, crt=None):
     rec = data['rec']
-    if 'driver_error' in model or 'driver_error' in judge or 'driver_error' in (dtmodel or {}):
+    if 'driver_error' in model or 'driver_error' in judge or 'driver_error' in (dtmodel or {}) or 'driver_error' in (crt or {}):
         raise RuntimeError(f'driver error: {model.get("driver_error")} {judge.get("driver_error")} '
-                           f'{(dtmodel or {}).get("driver_error")} ({label})')
+                           f'{(dtmodel or {}).get("driver_error")} {(crt or {}).get("driver_error")} ({label})')
+    # create_modules correspondence: configuration order + attachments + what the Pinatas yield -> the module objects in
+    # their order of creation and the list the report is made from, derived by the model (Node/CreateModules)
+    if ctx.model_ok and crt is not None and data.get('create'):
+        reg = data['registry']
+        res.count('create-correspondence.nodes')
+        cfgnames = [c['name'] for c in data['create']['cfg']]
+        if any(c['pinata'] for c in data['create']['cfg'] + data['create']['pool']):
+            res.count('create.nodes-with-pinata')
+        if any(c['attached'] for c in data['create']['cfg'] + data['create']['pool']):
+            res.count('create.nodes-with-attached')
+        created = [n for n, _ in reg['created']]
+        # a module created before its own turn: it stands in front of a module that is declared before it
+        early = [n for n in cfgnames if n in created and any(
+            o in created and created.index(o) > created.index(n) for o in cfgnames[:cfgnames.index(n)])]
+        for n in early:
+            res.count('create.module-created-before-its-turn.%s' % ('exported' if dict(map(tuple, reg['created']))[n] else 'hidden'))
+        if crt.get('errors') or crt['created'] != reg['created'] or crt['export'] != reg['export']:
+            res.disagreements.append({'case': case, 'model': {'created': crt['created'], 'export': crt['export'], 'errors': crt.get('errors')},
+                                      'impl': {'created': reg['created'], 'export': reg['export'], 'cfg': data['create']}})
+    if data.get('prev'):
+        res.count('live.phases')
+        for ev in data.get('events', []):
+            pobj_kind = ev.get('kind', '')
+            res.count('live.set_properties.%s%s' % ('+'.join(sorted(ev['props'])), '.refused' if ev.get('refused') else ''))
     # datatype correspondence: class + configured limits -> instance datatype -> described datainfo -> verdicts on the
     # boundary payloads (node's own datatype, client datatype rebuilt from the described datainfo), all derived by the model
     if ctx.model_ok and dtmodel is not None:
@@ -1041,6 +1301,15 @@ def evaluate(ctx, res, label, case, data, model, judge, dtmodel=None):
             detail = {'described': next((c for c in data['classes'] if c['m'] == name), None),
                       'class chain': next((m.get('mro') for m in rec['node']['modules'] if m['name'] == name), None),
                       'configuration': next(((m.get('init') or {}).get('cfg') for m in rec['node']['modules'] if m['name'] == name), None)}
+        elif kind in ('unregistered-module', 'registered-not-exported', 'registration-order', 'lists'):
+            detail = {'described modules': [m['name'] for m in data['report1']], 'registry': data.get('registry'),
+                      'configuration': data.get('create')}
+        elif kind in ('unstable', 'unstable-untouched'):
+            r0 = (data.get('prev') or {}).get('report2') if kind == 'unstable-untouched' else data['report1']
+            diff = [(a, b) for a, b in zip(norm_report(r0 or []), norm_report(data['report1'] if kind == 'unstable-untouched' else data['report2'])) if a != b][:1]
+            detail = {'touched': data.get('touched_wire'), 'first difference': [[m['name'], [x for x, y in zip(m['accs'], o['accs']) if x != y][:1],
+                                                                                [y for x, y in zip(m['accs'], o['accs']) if x != y][:1]]
+                                                                               for m, o in diff]}
         elif kind == 'datainfo-disagrees':
             detail = data['dichecks'][idx]
         elif kind == 'emitted-not-importable':
@@ -1051,7 +1320,9 @@ def evaluate(ctx, res, label, case, data, model, judge, dtmodel=None):
 
 def run(ctx):
     res = Result()
-    res.rule = ('one evaluation = one node (generated classes + configuration incl. entries for module properties - also the automatic ones - '
+    res.rule = ('one evaluation = one PHASE of one node; a quarter of the nodes have modules attached to each other and Pinatas, declared in random order (create_modules correspondence + registration monitor); '
+                'flat nodes get 0-2 rounds of live datatype changes (set_properties of limits / unit on live parameters), each followed by a new phase judged against the NEW report; '
+                'a node = (generated classes + configuration incl. entries for module properties - also the automatic ones - '
                 'and for constant / datatype properties of parameters: limits of int / double / scaled - scaled limits on the grid by quotient class and off the grid -, '
                 'lengths, unit, resolution): describe twice around a sweep of change/read/do/activate requests over every '
                 'described and every undescribed name (attribute names, underscore variants, old names of renamed '
@@ -1072,14 +1343,16 @@ def run(ctx):
         todo.append(gen_case(rng.randrange(1 << 40), big))
     items = []
     for case in todo:
-        data = run_generated(case)
-        if data is None:
-            res.count('node.rejected-by-frappy')
+        phases = run_generated(case)
+        if phases is None:
+            res.count('node.rejected-by-frappy' + ('.topology' if case['nodespec'].get('topology') else ''))
             continue
-        if 'corpus' in case:
-            items.append(('corpus-' + case['corpus'], {'kind': 'corpus', 'file': case['corpus']}, data))
-        else:
-            items.append(('gen-%d' % case['seed'], {'kind': 'generated', 'seed': case['seed'], 'big': case['big']}, data))
+        for i, data in enumerate(phases):
+            suffix = '' if i == 0 else '/after-live-change-%d' % i
+            if 'corpus' in case:
+                items.append(('corpus-' + case['corpus'] + suffix, {'kind': 'corpus', 'file': case['corpus']}, data))
+            else:
+                items.append(('gen-%d' % case['seed'] + suffix, {'kind': 'generated', 'seed': case['seed'], 'big': case['big']}, data))
     def judge_items(items):
         reqs = []
         for _, _, data in items:
@@ -1088,7 +1361,7 @@ def run(ctx):
         for i in range(0, len(reqs), 40):
             answers += ctx.driver.batch(reqs[i:i + 40])
         for j, (label, case, data) in enumerate(items):
-            evaluate(ctx, res, label, case, data, answers[3 * j], answers[3 * j + 1], answers[3 * j + 2])
+            evaluate(ctx, res, label, case, data, answers[4 * j], answers[4 * j + 1], answers[4 * j + 2], answers[4 * j + 3])
 
     # phase 1: generated nodes (fake drivers).  phase 2: the shipped configurations, whose drivers are REAL code: they are
     # probed only with requests the node must refuse before any driver is involved, and only when phase 1 found the tree
@@ -1105,7 +1378,7 @@ def run(ctx):
     items = []
     for name, node, mods in nodes:
         data = run_node(random.Random(name), node, None, None, None, cfgs=mods)
-        items.append(('cfg-' + name, {'kind': 'cfg', 'name': name}, data))
+        items.append(('cfg-' + name, {'kind': 'cfg', 'name': name}, data))      # (registry judged; no create correspondence)
         res.count('shipped-cfg')
     judge_items(items)
     return res
@@ -1114,27 +1387,35 @@ def run(ctx):
 def replay(ctx, rp):
     case = rp['case']
     if case['kind'] == 'generated':
-        data = run_generated(gen_case(case['seed'], case['big']))
+        phases = run_generated(gen_case(case['seed'], case['big']))
     elif case['kind'] == 'corpus':
-        data = run_generated(json.load(open(os.path.join(ctx.verif, 'corpus', PID, case['file'])))['case'])
+        phases = run_generated(json.load(open(os.path.join(ctx.verif, 'corpus', PID, case['file'])))['case'])
     else:
         nodes, _ = shipped_nodes(ctx)
         node, mods = {n: (nd, ms) for n, nd, ms in nodes}[case['name']]
-        data = run_node(random.Random(case['name']), node, None, None, None, cfgs=mods)
-    if data is None:
+        phases = [run_node(random.Random(case['name']), node, None, None, None, cfgs=mods)]
+    if phases is None:
         print('node rejected by frappy')
         return 2
-    a = ctx.driver.batch(to_requests(data))
-    print('report (impl):', json.dumps([[m['name'], [[x['name'], x['readonly'], x['constant']] for x in m['accs']]]
-                                         for m in data['report1']])[:1500])
-    same = 'report' in a[0] and norm_report(a[0]['report']) == norm_report(data['report1'])
-    print('model report equal:', same)
-    print('judge:', a[1])
-    res = Result()
-    evaluate(ctx, res, 'replay', case, data, a[0], a[1], a[2])
-    for d in res.disagreements:
-        print('model and implementation disagree:', json.dumps(d, default=str)[:600])
-        same = False
-    for v in res.violations:
-        print('violation:', v['what'])
-    return 0 if not res.violations and same else 1
+    ok = True
+    for i, data in enumerate(phases):
+        if data.get('create'):
+            print('configuration:', json.dumps(data['create'])[:1200])
+            print('module objects (export flag) / registered for the report:', json.dumps(data['registry'])[:600])
+        if data.get('events'):
+            print('live datatype changes before this phase:', json.dumps(data['events'], default=str)[:800])
+        a = ctx.driver.batch(to_requests(data))
+        print('report (impl):', json.dumps([[m['name'], [[x['name'], x['readonly'], x['constant']] for x in m['accs']]]
+                                             for m in data['report1']])[:1500])
+        same = 'report' in a[0] and norm_report(a[0]['report']) == norm_report(data['report1'])
+        print('model report equal:', same)
+        print('judge:', json.dumps(a[1])[:600])
+        res = Result()
+        evaluate(ctx, res, 'replay' if i == 0 else 'replay/after-live-change-%d' % i, case, data, a[0], a[1], a[2], a[3])
+        for d in res.disagreements:
+            print('model and implementation disagree:', json.dumps(d, default=str)[:int(os.environ.get('VERIF_REPLAY_WIDTH', 600))])
+            same = False
+        for v in res.violations:
+            print('violation:', v['what'])
+        ok = ok and not res.violations and same
+    return 0 if ok else 1
